@@ -158,6 +158,7 @@ BAD_ESCAPE = [
     ('u32-hex-range', 'unsigned x[] = U"\\x100000000";'), ('charconst-hex-range', "int x = '\\x100';"), ('u16-const-range', "int x = u'\\x10000';"), ('empty-charconst', "int x = '';"),
     ('bad-escape', 'char x[] = "\\q";'), ('hex-no-digit', 'char x[] = "\\xg";'), ('mixed-prefix', 'unsigned x[] = u"a" U"b";'), ('mixed-prefix-2', 'int x[] = L"a" u"b";'),
     ('u16-surrogate-const', "int x = u'\U0001f600';"), ('u8-const-multibyte', "int x = u8'é';"), ('width-mismatch', 'char x[] = L"a";'), ('width-mismatch-2', 'unsigned short x[] = "a";'),
+    ('charconst-hex-overflow', "int x = '\\x100000041';"), ('char-hex-overflow', 'char x[] = "\\x100000041";'), ('u32-hex-overflow', 'unsigned x[] = U"\\x1000000041";'), ('wide-hex-overflow', "int x = L'\\xfffffffff';"),
     ('unterminated', 'char x[] = "abc;'), ('newline-in-string', 'char x[] = "ab\ncd";'), ('two-char-u', "int x = u'ab';"),
 ]
 
